@@ -151,6 +151,16 @@ fn build_cases(tier: Tier) -> Vec<(String, Vec<Case>)> {
             g.push(case(&o, &input, &format!("{opt_name},{}", shape_class(s)), format!("{} on shape {s:?}", o.join(" "))));
         }
     }
+    // npy output for a shape family whose header length sweeps every residue modulo 64 (k unit axes
+    // followed by one axis of 1..4 digits)
+    for k in 1..=64usize {
+        for last in [7usize, 42, 123, 1000] {
+            let mut sh = vec![1usize; k];
+            sh.push(last);
+            let input = spectrum_text(&sh);
+            g.push(case(&["view", "-O", "npy"], &input, "npy-header-residue", format!("view -O npy on {k} unit axes + one of length {last}")));
+        }
+    }
     groups.push(("(ii) view/fold options x shape grid".into(), g));
 
     // (iii) option values at and beyond bounds
